@@ -1017,8 +1017,8 @@ func ruleR03_9(p *Program, r *Report) {
 					}
 					x, y := f.X, f.Y
 					switch f.Op {
-					case token.LEQ:
-					case token.GEQ:
+					case token.LEQ, token.LSS: // cursor < bound+1 is the same test as cursor <= bound (R02.16 judges the constant)
+					case token.GEQ, token.GTR:
 						x, y = y, x
 					default:
 						continue
@@ -1759,17 +1759,33 @@ func ruleR04_9(p *Program, r *Report) {
 	}
 	// the copy into the staging buffer made before parsing: copy(headerBuffer[headerBuffered:], input[:copySize])
 	var stageCopy *ssa.Call
-	for _, c := range allCalls(fn) {
-		call, ok := c.(*ssa.Call)
-		if !ok {
-			continue
-		}
-		if bi, ok := call.Common().Value.(*ssa.Builtin); ok && bi.Name() == "copy" {
-			if sl, ok := call.Common().Args[1].(*ssa.Slice); ok && sl.High != nil && sl.Low == nil {
-				if _, sel := accessPath(sl.X); strings.HasSuffix(sel, ".input") {
-					stageCopy = call
+	stageFn := fn
+	for _, rf := range recvRegion(fn) {
+		for _, c := range allCalls(rf.fn) {
+			call, ok := c.(*ssa.Call)
+			if !ok {
+				continue
+			}
+			if bi, ok := call.Common().Value.(*ssa.Builtin); ok && bi.Name() == "copy" {
+				if sl, ok := call.Common().Args[1].(*ssa.Slice); ok && sl.High != nil && sl.Low == nil {
+					if _, sel := accessPath(sl.X); strings.HasSuffix(sel, ".input") {
+						stageCopy, stageFn = call, rf.fn
+					}
 				}
 			}
+		}
+	}
+	// when the staging lives in a helper, the call of that helper in readHeader stands for the copy
+	var stageAt ssa.Instruction = stageCopy
+	if stageCopy != nil && stageFn != fn {
+		stageAt = nil
+		for _, c := range allCalls(fn) {
+			if c.Common().StaticCallee() == stageFn {
+				stageAt = c
+			}
+		}
+		if stageAt == nil {
+			stageCopy = nil
 		}
 	}
 	if stageCopy == nil {
@@ -1793,7 +1809,7 @@ func ruleR04_9(p *Program, r *Report) {
 			if !ok || sl.Low == nil || sl.High != nil {
 				continue
 			}
-			if reach, _, _ := (PathQuery{Start: stageCopy, Target: func(x ssa.Instruction) bool { return x == ssa.Instruction(st) }}).Find(fn); !reach {
+			if reach, _, _ := (PathQuery{Start: stageAt, Target: func(x ssa.Instruction) bool { return x == ssa.Instruction(st) }}).Find(fn); !reach {
 				continue
 			}
 			if _, sel := accessPath(sl.X); strings.HasSuffix(sel, ".headerBuffer") {
@@ -1802,6 +1818,37 @@ func ruleR04_9(p *Program, r *Report) {
 			n++
 			key := shortFn(fn) + "|re-slice after a staged header"
 			got := expandPhiLinear(sl.Low, 0)
+			if stageFn != fn && got.ok {
+				// the staged length is the helper's result: replace it by the linear form of what the helper returns
+				for t, c := range got.terms {
+					if !strings.HasSuffix(t, "."+stageFn.Name()+"()") {
+						continue
+					}
+					var rets []*ssa.Return
+					for _, hb := range stageFn.Blocks {
+						for _, hin := range hb.Instrs {
+							if rt, ok := hin.(*ssa.Return); ok {
+								rets = append(rets, rt)
+							}
+						}
+					}
+					if len(rets) != 1 || len(rets[0].Results) != 1 {
+						continue
+					}
+					sub := expandPhiLinear(rets[0].Results[0], 0)
+					if !sub.ok {
+						continue
+					}
+					delete(got.terms, t)
+					got.k += c * sub.k
+					for st2, sc := range sub.terms {
+						got.terms[st2] += c * sc
+						if got.terms[st2] == 0 {
+							delete(got.terms, st2)
+						}
+					}
+				}
+			}
 			// expected: copySize - len(.input)
 			want := map[string]int64{}
 			for t, c := range lcs.terms {
@@ -3835,4 +3882,684 @@ func modPathOf(p *Program) string {
 		return path
 	}
 	return modPath
+}
+
+// ---------- R11.7 / R02.15: a stored block asks for more input only when bit buffer and input together are short ----------
+
+func init() {
+	const text = "the stored-block copier (decodeLiteralBlock) produces errEndInput only behind a comparison one operand of which counts, in linear normal form, both the whole bytes held in the bit buffer (bitsLen/8) and len(input): the header parser loads 8 bytes at a time, so up to 3 data bytes of a stored block sit in the bit buffer while the input slice is empty - an end-of-input decided on len(input) alone strands them."
+	extend("C11", Rule{ID: "R11.7", Configs: "all", Run: ruleR11_7}, "(R11.7) "+text)
+	extend("C02", Rule{ID: "R02.15", Configs: "all", Run: ruleR11_7}, "(R02.15) = R11.7.")
+}
+
+func ruleR11_7(p *Program, r *Report) {
+	id := "R11.7"
+	if r.Prop == "C02" {
+		id = "R02.15"
+	}
+	r.Expect(id, 1)
+	fn := p.Method(flateRel, "inflate", "decodeLiteralBlock")
+	if fn == nil {
+		r.Undecided(id, "anchor", "-", "inflate.decodeLiteralBlock exists", "not found")
+		return
+	}
+	n := 0
+	lab := newLabeler()
+	for _, rf := range recvRegion(fn) {
+		for _, b := range rf.fn.Blocks {
+			for _, in := range b.Instrs {
+				ld, ok := in.(*ssa.UnOp)
+				if !ok || ld.Op != token.MUL {
+					continue
+				}
+				g, ok := ld.X.(*ssa.Global)
+				if !ok || g.Name() != "errEndInput" {
+					continue
+				}
+				n++
+				good := false
+				for _, f := range dominatingFacts(ld) {
+					for _, v := range []ssa.Value{f.X, f.Y} {
+						if v == nil {
+							continue
+						}
+						l := expandPhiLinear(v, 0)
+						if !l.ok {
+							continue
+						}
+						hasBits, hasIn := false, false
+						for t := range l.terms {
+							if strings.Contains(t, ".bitsLen") && strings.Contains(t, "/8") {
+								hasBits = true
+							}
+							if strings.HasPrefix(t, "len(") && strings.HasSuffix(t, ".input)") {
+								hasIn = true
+							}
+						}
+						if hasBits && hasIn {
+							good = true
+						}
+					}
+				}
+				why := ""
+				if !good {
+					why = "errEndInput is produced on a path that is not behind a comparison with bitsLen/8 + len(input): data bytes still held in the bit buffer would be stranded while the reader asks for more input"
+				}
+				r.Check(good, id, shortFn(rf.fn)+"|"+lab.get("end of input"), p.InstrPos(ld), "end of input in a stored block is decided on the bytes of bit buffer and input together", why)
+			}
+		}
+	}
+	if n == 0 {
+		r.Undecided(id, shortFn(fn)+"|end of input", p.Pos(fn.Pos()), "decodeLiteralBlock can report errEndInput", "no use of errEndInput found")
+	}
+}
+
+// ---------- R02.16: overrun tests of the code-length parser agree on the bound ----------
+
+// altLinear: the linear forms v can take when phis with a few incoming values are expanded (at most 8 forms).
+func altLinear(v ssa.Value, depth int) []linForm {
+	l := linearizeWith(v, true)
+	if !l.ok {
+		return nil
+	}
+	forms := []linForm{{terms: map[string]int64{}, k: l.k, ok: true}}
+	phis := map[string]*ssa.Phi{}
+	seen := map[ssa.Value]bool{}
+	var collect func(x ssa.Value)
+	collect = func(x ssa.Value) {
+		if x == nil || seen[x] {
+			return
+		}
+		seen[x] = true
+		switch y := x.(type) {
+		case *ssa.Phi:
+			phis["phi:"+y.Name()] = y
+		case *ssa.BinOp:
+			collect(y.X)
+			collect(y.Y)
+		case *ssa.Convert:
+			collect(y.X)
+		case *ssa.UnOp:
+			collect(y.X)
+		}
+	}
+	collect(v)
+	for term, c := range l.terms {
+		var subs []linForm
+		if phi, ok := phis[term]; ok && depth < 2 && len(phi.Edges) <= 3 {
+			loop := false
+			for _, e := range phi.Edges {
+				// a phi that feeds itself is a loop variable: an atom
+				if e == ssa.Value(phi) {
+					loop = true
+				}
+				if bo, ok := e.(*ssa.BinOp); ok && (bo.X == ssa.Value(phi) || bo.Y == ssa.Value(phi)) {
+					loop = true
+				}
+			}
+			if !loop && phi.Block() != nil && !isLoopHeader(phi.Block()) {
+				for _, e := range phi.Edges {
+					subs = append(subs, altLinear(e, depth+1)...)
+				}
+			}
+		}
+		if len(subs) == 0 {
+			subs = []linForm{{terms: map[string]int64{term: 1}, ok: true}}
+		}
+		var next []linForm
+		for _, f := range forms {
+			for _, sb := range subs {
+				nf := linForm{terms: map[string]int64{}, k: f.k + c*sb.k, ok: true}
+				for t, cc := range f.terms {
+					nf.terms[t] += cc
+				}
+				for t, cc := range sb.terms {
+					nf.terms[t] += c * cc
+				}
+				for t, cc := range nf.terms {
+					if cc == 0 {
+						delete(nf.terms, t)
+					}
+				}
+				next = append(next, nf)
+				if len(next) >= 8 {
+					break
+				}
+			}
+		}
+		forms = next
+	}
+	return forms
+}
+
+func isLoopHeader(b *ssa.BasicBlock) bool {
+	for _, pr := range b.Preds {
+		if b.Dominates(pr) {
+			return true
+		}
+	}
+	return false
+}
+
+func init() {
+	extend("C02", Rule{ID: "R02.16", Configs: "all", Run: ruleR02_16},
+		"(R02.16) the overrun tests of the code-length parser agree with the table size: every comparison of a cursor expression with the bound 'constant + count parameter' whose overrun edge leads straight to errInvalidBlock rejects exactly 'cursor - parameter >= litLen + 2' (cursor beyond litLen + hdist + 1 slots), whatever the spelling (>, >=, +1/-1 moved across) - a run of repeated lengths may end exactly on the last declared length. Sibling agreement over all such tests plus the RFC count.")
+	extend("C03", Rule{ID: "R03.13", Configs: "all", Run: ruleR02_16}, "(R03.13) = R02.16.")
+}
+
+func ruleR02_16(p *Program, r *Report) {
+	id := "R02.16"
+	if r.Prop == "C03" {
+		id = "R03.13"
+	}
+	r.Expect(id, 2)
+	fn := p.Method(flateRel, "inflate", "readLitDistLens")
+	litLen, okL := constOf(p, flateRel, "litLen")
+	if fn == nil || !okL {
+		r.Undecided(id, "anchors", "-", "inflate.readLitDistLens and the constant litLen exist", "not found")
+		return
+	}
+	errBlock := func(b *ssa.BasicBlock) bool {
+		for _, in := range b.Instrs {
+			if g := globalLoad(valueOf(in)); g != nil && g.Name() == "errInvalidBlock" {
+				return true
+			}
+		}
+		return false
+	}
+	n := 0
+	lab := newLabeler()
+	for _, b := range fn.Blocks {
+		if len(b.Instrs) == 0 {
+			continue
+		}
+		iff, ok := b.Instrs[len(b.Instrs)-1].(*ssa.If)
+		if !ok {
+			continue
+		}
+		bo, ok := iff.Cond.(*ssa.BinOp)
+		if !ok {
+			continue
+		}
+		switch bo.Op {
+		case token.GTR, token.GEQ, token.LSS, token.LEQ:
+		default:
+			continue
+		}
+		// which side is the bound: exactly one count parameter with coefficient 1 and nothing else
+		isBound := func(f linForm) (string, bool) {
+			if len(f.terms) != 1 {
+				return "", false
+			}
+			for t, c := range f.terms {
+				if strings.HasPrefix(t, "param:") && c == 1 {
+					return t, true
+				}
+			}
+			return "", false
+		}
+		noParam := func(f linForm) bool {
+			for t := range f.terms {
+				if strings.HasPrefix(t, "param:") {
+					return false
+				}
+			}
+			return len(f.terms) > 0
+		}
+		type side struct{ forms []linForm }
+		L, R := altLinear(bo.X, 0), altLinear(bo.Y, 0)
+		if len(L) == 0 || len(R) == 0 {
+			continue
+		}
+		op := bo.Op
+		cur, bnd := L, R
+		swapped := false
+		hasBound := func(fs []linForm) bool {
+			for _, f := range fs {
+				if _, ok := isBound(f); ok {
+					return true
+				}
+			}
+			return false
+		}
+		if hasBound(L) && !hasBound(R) {
+			cur, bnd, swapped = R, L, true
+		} else if !hasBound(R) {
+			continue
+		}
+		if swapped {
+			switch op {
+			case token.GTR:
+				op = token.LSS
+			case token.GEQ:
+				op = token.LEQ
+			case token.LSS:
+				op = token.GTR
+			case token.LEQ:
+				op = token.GEQ
+			}
+		}
+		allCur := true
+		for _, f := range cur {
+			if !noParam(f) {
+				allCur = false
+			}
+		}
+		if !allCur {
+			continue
+		}
+		// the overrun edge: cursor at or beyond the bound
+		var over *ssa.BasicBlock
+		switch op {
+		case token.GTR, token.GEQ:
+			over = b.Succs[0]
+		default:
+			over = b.Succs[1]
+		}
+		if !errBlock(over) {
+			continue
+		}
+		for _, bf := range bnd {
+			if _, ok := isBound(bf); !ok {
+				continue // a variant of the bound that accounts for something else (the literal/length gap)
+			}
+			for _, cf := range cur {
+				n++
+				// the cursor expression is taken whole, with its constant (the base of a run length is part of where
+				// the run ends); only the bound's constant decides the threshold
+				_ = cf
+				d := bf.k
+				var T int64
+				switch op {
+				case token.GTR:
+					T = d + 1
+				case token.GEQ:
+					T = d
+				case token.LSS:
+					T = d
+				case token.LEQ:
+					T = d + 1
+				}
+				why := ""
+				if T != litLen+2 {
+					why = "this test takes the invalid-block exit when cursor - count >= " + itoa(int(T)) + "; the table has litLen + count + 1 slots, so only cursor - count >= " + itoa(int(litLen+2)) + " overruns it (a run ending exactly on the last declared length is legal)"
+				}
+				r.Check(why == "", id, shortFn(fn)+"|"+lab.get("overrun test"), p.InstrPos(iff), "the overrun test rejects exactly a cursor beyond litLen + count + 1", why)
+			}
+		}
+	}
+	if n == 0 {
+		r.Undecided(id, shortFn(fn)+"|overrun tests", p.Pos(fn.Pos()), "the parser compares its cursor with constant + count parameter before errInvalidBlock", "no such test found")
+	}
+}
+
+func valueOf(in ssa.Instruction) ssa.Value {
+	v, _ := in.(ssa.Value)
+	return v
+}
+
+// ---------- R02.17: the two zero-run cases switch tables under the same condition ----------
+
+func init() {
+	extend("C02", Rule{ID: "R02.17", Configs: "all", Run: ruleR02_17},
+		"(R02.17) sibling agreement in the code-length parser: the places where a zero run carries the cursor over the gap between the literal/length and the distance lengths (cursor += constant - count parameter) are guarded by the same condition - the same set of tests on the cursor against the count parameter and on which count table is current - in every run-length case; a case with its own boundary test (for example a positional one that misses a run starting exactly on the boundary) files distance lengths under literal/length slots.")
+}
+
+func ruleR02_17(p *Program, r *Report) {
+	r.Expect("R02.17", 1)
+	fn := p.Method(flateRel, "inflate", "readLitDistLens")
+	if fn == nil {
+		r.Undecided("R02.17", "anchors", "-", "inflate.readLitDistLens exists", "not found")
+		return
+	}
+	sideSig := func(v ssa.Value) (string, bool) {
+		if _, ok := v.Type().Underlying().(*types.Pointer); ok {
+			return "ptr", true
+		}
+		if _, ok := constInt(v); ok {
+			return "k", false
+		}
+		l := linearizeWith(v, true)
+		var ps []string
+		other := false
+		for t, c := range l.terms {
+			if strings.HasPrefix(t, "param:") {
+				ps = append(ps, itoa(int(c))+"*param")
+			} else {
+				other = true
+			}
+		}
+		sort.Strings(ps)
+		s := strings.Join(ps, "+")
+		if other {
+			s += "+v"
+		}
+		return s, len(ps) > 0
+	}
+	type site struct {
+		at  ssa.Instruction
+		sig string
+	}
+	var sites []site
+	for _, b := range fn.Blocks {
+		for _, in := range b.Instrs {
+			bo, ok := in.(*ssa.BinOp)
+			if !ok || bo.Op != token.ADD || intSize(bo.Type()) == 0 {
+				continue
+			}
+			// cursor += constant - count parameter: one operand is param-linear with coefficient -1 and no other atom
+			gap := false
+			for _, o := range []ssa.Value{bo.X, bo.Y} {
+				l := linearizeWith(o, true)
+				if len(l.terms) == 1 {
+					for t, c := range l.terms {
+						if strings.HasPrefix(t, "param:") && c == -1 {
+							gap = true
+						}
+					}
+				}
+			}
+			if !gap {
+				continue
+			}
+			var sigs []string
+			for _, f := range dominatingFacts(bo) {
+				if f.Y == nil {
+					continue
+				}
+				sx, rx := sideSig(f.X)
+				sy, ry := sideSig(f.Y)
+				if !rx && !ry {
+					continue // tests that involve neither a count parameter nor a table address (symbol values, bit counts)
+				}
+				op := f.Op
+				if sx > sy { // canonical order of the sides
+					sx, sy = sy, sx
+					switch op {
+					case token.LSS:
+						op = token.GTR
+					case token.LEQ:
+						op = token.GEQ
+					case token.GTR:
+						op = token.LSS
+					case token.GEQ:
+						op = token.LEQ
+					}
+				}
+				sigs = append(sigs, op.String()+"("+sx+","+sy+")")
+			}
+			sort.Strings(sigs)
+			sites = append(sites, site{bo, strings.Join(sigs, " & ")})
+		}
+	}
+	if len(sites) < 2 {
+		r.Undecided("R02.17", shortFn(fn)+"|gap sites", p.Pos(fn.Pos()), "at least two run-length cases carry the cursor over the gap (cursor += constant - count parameter)", itoa(len(sites))+" found")
+		return
+	}
+	// majority signature (with two sites: the first; a disagreement is reported at both)
+	count := map[string]int{}
+	for _, s := range sites {
+		count[s.sig]++
+	}
+	ref, best := "", 0
+	for sg, c := range count {
+		if c > best || (c == best && sg < ref) {
+			ref, best = sg, c
+		}
+	}
+	lab := newLabeler()
+	for _, s := range sites {
+		why := ""
+		if len(count) > 1 && (s.sig != ref || best*2 <= len(sites)) {
+			why = "this case carries the cursor over the gap under [" + s.sig + "], another under a different condition: the run-length cases must switch tables under the same test"
+		}
+		r.Check(why == "", "R02.17", shortFn(fn)+"|"+lab.get("gap site"), p.InstrPos(s.at), "the cursor is carried over the literal/distance gap under the same condition as in the sibling cases ["+s.sig+"]", why)
+	}
+}
+
+// ---------- R10.13 / R01.15: bytes encoded into the output buffer are handed over before the buffer is rewound or the method returns ----------
+
+func init() {
+	const text = "no encoded bytes are dropped: in every method of a compressor that owns an output BitBuf, from each call that encodes into the buffer (a call taking the address of the receiver's buffer) every path to a rewind of the buffer (store of 0 to its index) or to a successful return passes a destination call; a first loop test that provably cannot fail (index from 0 against the length of a slice just appended to) is not a path. A tail left in the buffer 'for the next Write' is overwritten by the next block's rewind."
+	extend("C10", Rule{ID: "R10.13", Configs: "all", Run: ruleR10_13}, "(R10.13) "+text)
+	extend("C01", Rule{ID: "R01.15", Configs: "all", Run: ruleR10_13}, "(R01.15) = R10.13.")
+}
+
+func ruleR10_13(p *Program, r *Report) {
+	id := "R10.13"
+	if r.Prop == "C01" {
+		id = "R01.15"
+	}
+	r.Expect(id, 4)
+	sp := p.Pkg(deflRel)
+	bitbuf := p.Named(deflRel, "BitBuf")
+	if sp == nil || bitbuf == nil {
+		r.Undecided(id, "anchors", "-", "the deflate package and its BitBuf type exist", "not found")
+		return
+	}
+	n := 0
+	for _, fn := range p.Funcs() {
+		if fn.Pkg != sp || fn.Signature.Recv() == nil || len(fn.Params) == 0 || fn.Blocks == nil {
+			continue
+		}
+		if fn.Name() == "Reset" || fn.Name() == "reset" {
+			continue // a reset discards whatever is pending, by design
+		}
+		recv := fn.Params[0]
+		rs := derefStruct(recv.Type())
+		if rs == nil {
+			continue
+		}
+		bufField := ""
+		for i := 0; i < rs.NumFields(); i++ {
+			if derefNamed(rs.Field(i).Type()) == bitbuf {
+				if _, isPtr := rs.Field(i).Type().(*types.Pointer); !isPtr {
+					bufField = "." + rs.Field(i).Name()
+				}
+			}
+		}
+		if bufField == "" {
+			continue
+		}
+		isFill := func(in ssa.Instruction) bool {
+			c, ok := in.(ssa.CallInstruction)
+			if !ok {
+				return false
+			}
+			for _, a := range c.Common().Args {
+				if root, sel := accessPath(a); root == ssa.Value(recv) && sel == bufField {
+					if _, isPtr := a.Type().Underlying().(*types.Pointer); isPtr {
+						return true
+					}
+				}
+			}
+			return false
+		}
+		isWrite := func(in ssa.Instruction) bool {
+			c, ok := in.(ssa.CallInstruction)
+			if !ok {
+				return false
+			}
+			d, _ := p.isDstCall(c)
+			return d
+		}
+		isTarget := func(in ssa.Instruction) (bool, string) {
+			switch x := in.(type) {
+			case *ssa.Store:
+				if root, sel := accessPath(x.Addr); root == ssa.Value(recv) && sel == bufField+".idx" {
+					if k, ok := constInt(x.Val); ok && k == 0 {
+						return true, "the buffer is rewound"
+					}
+				}
+			case *ssa.Return:
+				e := returnErr(x)
+				if e == nil || p.mayBeNil(fn, e, x) {
+					return true, "the method returns successfully"
+				}
+			}
+			return false, ""
+		}
+		// loop headers whose first test cannot fail
+		sure := map[*ssa.BasicBlock]*ssa.BasicBlock{} // header -> exit successor that is infeasible on first entry
+		for _, h := range fn.Blocks {
+			if !isLoopHeader(h) || len(h.Instrs) == 0 {
+				continue
+			}
+			iff, ok := h.Instrs[len(h.Instrs)-1].(*ssa.If)
+			if !ok {
+				continue
+			}
+			bo, ok := iff.Cond.(*ssa.BinOp)
+			if !ok || bo.Op != token.LSS {
+				continue
+			}
+			phi, ok := bo.X.(*ssa.Phi)
+			if !ok || phi.Block() != h {
+				continue
+			}
+			zeroEntry := true
+			for i, e := range phi.Edges {
+				if !h.Dominates(h.Preds[i]) {
+					if k, isK := constInt(e); !isK || k != 0 {
+						zeroEntry = false
+					}
+				}
+			}
+			if !zeroEntry {
+				continue
+			}
+			// index from 0 against a receiver field known to be non-zero (tested before, not stored since)
+			if root, sel, isL := fieldLoad(stripConv(bo.Y)); isL && root == ssa.Value(recv) {
+				known, stored := false, false
+				for _, f := range dominatingFacts(iff) {
+					if f.Y == nil {
+						continue
+					}
+					// field != 0, field > 0, field >= 1 (and the mirrored spellings)
+					for i, pair := range [][2]ssa.Value{{f.X, f.Y}, {f.Y, f.X}} {
+						k, isK := constInt(pair[1])
+						if !isK {
+							continue
+						}
+						op := f.Op
+						if i == 1 {
+							switch op {
+							case token.LSS:
+								op = token.GTR
+							case token.LEQ:
+								op = token.GEQ
+							case token.GTR:
+								op = token.LSS
+							case token.GEQ:
+								op = token.LEQ
+							}
+						}
+						if !((op == token.NEQ && k == 0) || (op == token.GTR && k >= 0) || (op == token.GEQ && k >= 1)) {
+							continue
+						}
+						if r2, s2, ok := fieldLoad(stripConv(pair[0])); ok && r2 == ssa.Value(recv) && s2 == sel {
+							known = true
+						}
+					}
+				}
+				for _, b := range fn.Blocks {
+					for _, in := range b.Instrs {
+						if st, ok := in.(*ssa.Store); ok && dominatesInstr(st, iff) {
+							if r2, s2 := accessPath(st.Addr); r2 == ssa.Value(recv) && s2 == sel {
+								stored = true
+							}
+						}
+					}
+				}
+				if known && !stored {
+					sure[h] = h.Succs[1]
+				}
+				continue
+			}
+			lc, ok := bo.Y.(*ssa.Call)
+			if !ok {
+				continue
+			}
+			if bi, isB := lc.Common().Value.(*ssa.Builtin); !isB || bi.Name() != "len" {
+				continue
+			}
+			root, sel, isL := fieldLoad(lc.Common().Args[0])
+			if !isL || root != ssa.Value(recv) {
+				continue
+			}
+			appended, other := false, false
+			for _, b := range fn.Blocks {
+				for _, in := range b.Instrs {
+					st, ok := in.(*ssa.Store)
+					if !ok {
+						continue
+					}
+					if r2, s2 := accessPath(st.Addr); r2 != ssa.Value(recv) || s2 != sel || !dominatesInstr(st, iff) {
+						continue
+					}
+					if c, ok := st.Val.(*ssa.Call); ok {
+						if bi, ok := c.Common().Value.(*ssa.Builtin); ok && bi.Name() == "append" && len(c.Common().Args) > 1 {
+							appended = true
+							continue
+						}
+					}
+					other = true
+				}
+			}
+			if appended && !other {
+				sure[h] = h.Succs[1]
+			}
+		}
+		lab := newLabeler()
+		for _, b0 := range fn.Blocks {
+			for i0, in0 := range b0.Instrs {
+				if !isFill(in0) {
+					continue
+				}
+				n++
+				type node struct {
+					b     *ssa.BasicBlock
+					first bool // entered through a non-back edge
+				}
+				seen := map[node]bool{}
+				var bad ssa.Instruction
+				badWhat := ""
+				var walk func(b *ssa.BasicBlock, from int, first bool)
+				walk = func(b *ssa.BasicBlock, from int, first bool) {
+					if bad != nil {
+						return
+					}
+					for _, in := range b.Instrs[from:] {
+						if isWrite(in) {
+							return
+						}
+						if t, what := isTarget(in); t {
+							bad, badWhat = in, what
+							return
+						}
+					}
+					for _, s := range b.Succs {
+						if ex, ok := sure[b]; ok && first && s == ex {
+							continue
+						}
+						nd := node{s, !s.Dominates(b)}
+						if seen[nd] {
+							continue
+						}
+						seen[nd] = true
+						walk(s, 0, nd.first)
+					}
+				}
+				walk(b0, i0+1, false)
+				why := ""
+				if bad != nil {
+					why = badWhat + " at " + p.InstrPos(bad) + " on a path from this call without the encoded bytes having been handed to the destination"
+				}
+				r.Check(bad == nil, id, shortFn(fn)+"|"+lab.get("after "+calleeLabel(in0.(ssa.CallInstruction))), p.InstrPos(in0), "what this call encodes into the buffer reaches the destination before the buffer is rewound or the method returns", why)
+			}
+		}
+	}
+	if n == 0 {
+		r.Undecided(id, "fills", "-", "compressor methods encode into their BitBuf", "no such call found")
+	}
 }
